@@ -1,3 +1,32 @@
-/-! # C18 — (stub: property theorems go here; see docs/BUILDING.md) -/
+import PtVerif.Proofs.Fasta
+/-!
+# C18 — biomolecule sequences are the sum of their residues; FASTA reading
+
+Model: `PtVerif.Model.Fasta` (tied to fasta.py / formulas.py by `harness/ptv/props/C18.py`).
+-/
 namespace PtVerif.C18
+open PtModel PtModel.Fasta
+
+variable {α : Type}
+
+/-- a sequence that is accepted is built from the table entries of its cleaned code string; its
+    atoms, cell volume and charge are the sums over those residues – for *every* code table -/
+theorem sequence_is_sum [Field α] [LinearOrder α] (am : Atom → α) (t : Table α) (s : List Char)
+    (m : Mol α) (h : sequence am t s = some m) :
+    ∃ parts, lookupAll t (clean s) = some parts ∧
+      (∀ b, lookupD m.labile.atoms b = (parts.map (·.struct.cnt b)).sum) ∧
+      m.vol = (parts.map (·.vol)).sum ∧ m.charge = (parts.map (·.charge)).sum := by
+  unfold sequence at h
+  cases hl : lookupAll t (clean s) with
+  | none => simp [hl] at h
+  | some parts =>
+    simp only [hl, Option.some.injEq] at h
+    subst h
+    refine ⟨parts, rfl, ?_, ?_, ?_⟩
+    · intro b
+      simp only [molecule]
+      rw [lookup_hill_atoms, joinStruct_cnt]
+    · simp only [molecule]; exact sumVol_eq parts
+    · simp only [molecule]; exact sumCharge_eq parts
+
 end PtVerif.C18
